@@ -55,9 +55,17 @@ def gen_case(seed: int, tier: str, index: int) -> Dict[str, Any]:
         T = rng.choice([0.15, 0.3, 0.5, 1.0, 2.0, 4.0])
         N = rng.choice([0, 1, 2, 3, 5, 10])
         answer = None
-        if rng.random() < 0.6:
-            answer = round(rng.uniform(0.0, (N + 1) * T * 1.1), 3)
-        cfg.update(T=T, N=N, answer=answer, answer_dup=rng.random() < 0.2, competing=rng.random() < 0.3)
+        if rng.random() < 0.7:
+            if rng.random() < 0.5:
+                # aim at the engine iteration in which a timeout expires (the answer races the retry)
+                k = rng.randint(1, N + 1)
+                answer = round(max(0.0, k * T + rng.choice([-0.045, -0.03, -0.015, -0.005, 0.0, 0.005, 0.02, 0.045]) + rng.choice([0.0, 0.05])), 3)
+            else:
+                answer = round(rng.uniform(0.0, (N + 1) * T * 1.1), 3)
+        # the request is created at a drawn phase of the engine's 50 ms receive cycle, so that a timeout can expire in the middle
+        # of a blocking receive (and an answer can race the retry)
+        cfg.update(T=T, N=N, answer=answer, answer_dup=rng.random() < 0.2, competing=rng.random() < 0.3,
+                   phase=rng.choice([0.0, 0.0, 0.01, 0.025, 0.04, round(rng.uniform(0, 0.05), 4)]))
     elif sub == "handshake":
         T = rng.choice([0.5, 1, 2])
         cfg["tables"] = {"idle": {"PROTOCOL_TIMEOUT_IN_SECONDS": T, "PROTOCOL_RETRY_COUNT": rng.choice([4, 10]), "PING_FREQUENCY_IN_SECONDS": rng.choice([2, 60])}}
@@ -308,6 +316,8 @@ def sub_life(world: WorldT) -> None:
     sock.open()
     sock.bind()
     me = (CLIENT_IP, SPA_PORT)
+    if cfg.get("phase"):
+        world.sleep(cfg["phase"])
     h = PrefixHandler(1, [b"REPLY"], "", record, send_bytes=b"REQUEST-1", timeout=T, retry_count=N,
                       on_retry_failed=GeckoUdpProtocolHandler._default_retry_failed_handler)
     h.remove_on_answer = True
@@ -327,9 +337,10 @@ def sub_life(world: WorldT) -> None:
     world.sched.monitors.append(watch)
     sock.add_receive_handler(h)
     sock.queue_send(h, peer.addr)
+    answer_rec = None
     if answer is not None:
         world.sleep(answer)
-        world.net.inject(peer.addr, me, b"REPLY-1", delay=0.001, who="answer")
+        answer_rec = world.net.inject(peer.addr, me, b"REPLY-1", delay=0.001, who="answer")
         if cfg.get("answer_dup"):
             world.net.inject(peer.addr, me, b"REPLY-1", delay=0.03, who="answer")
     world.wait_until(lambda: gone_at["t"] is not None, (N + 2) * T + 5, step=0.01)
@@ -365,7 +376,13 @@ def sub_life(world: WorldT) -> None:
                 world.violate(PROP, "handler-removed-early", f"{ctx}: removed {gone_at['t'] - tx[-1].t:.3f}s after its last transmission, before its timeout")
     else:
         res.probe("answered")
-        late = [r for r in tx if r.t > answered_at + 2 * ITER + (THROTTLE if cfg.get("competing") else 0)]
+        # a retry that was queued before the answer arrived leaves at the start of the engine's next iteration, i.e. before the
+        # engine receives again; so any transmission after the answer was delivered to the socket was initiated after it
+        rx_seq = answer_rec.deliveries[0][0] if answer_rec is not None and answer_rec.deliveries else None
+        # (the very first transmission was queued by the caller itself; an "answer" that arrives before it does not stop it)
+        late = [r for i, r in enumerate(tx) if rx_seq is not None and r.lseq > rx_seq and i >= 1]
+        if late:
+            res.probe("transmission_after_answer_seen")
         if late:
             world.violate(PROP, "transmission-after-answer", f"{ctx}: {len(late)} transmission(s) after the answer was dispatched "
                           f"(answer arrived at {answered_at - t0:.3f}s, transmissions at {[round(r.t - t0, 3) for r in tx]})")
